@@ -248,6 +248,8 @@ def harnesses(tier):
     Ns = (1, 2, 3) if tier == "quick" else (1, 2, 3, 4)
     Ss = ("size_t", "int") if tier == "quick" else ("size_t", "unsigned", "int")
     hs_s = [make_strided(N, s) for N in Ns for s in Ss]
+    # dimension-dispatched index code (if constexpr (N == ...)) is cheap to cover: strided alone goes two dimensions further
+    hs_s += [make_strided(N, "size_t") for N in range(max(Ns) + 1, max(Ns) + 3)]
     hs_mp = [make_morton(N, s, False) for N in Ns for s in Ss] + [make_morton_static(N, s, False) for N in Ns for s in Ss]
     hs_mb = [make_morton(N, s, True) for N in Ns for s in Ss] + [make_morton_static(N, s, True) for N in Ns for s in Ss]
     return hs_s, hs_mp, hs_mb
